@@ -80,6 +80,31 @@ def setup():
   for name, sig, pos, kwo, dfl, va, vk, cls in SPECS:
     fn = _mk(name, sig, pos + kwo, va, vk, cls)
     SHAPES[name] = dict(fn=fn, pos=pos, kwo=kwo, dfl=dfl, va=va, vk=vk, cls=cls)
+  # classes made configurable WITHOUT mutating them (dynamic subclass + metaclass __call__ wrapper)
+  for api in ('external', 'register'):
+    name = 'K' + api[:3]
+    ns = {'REC': REC, 'R': R}
+    exec('class %s:\n  def __init__(self, a, b=R, *, k="dk"):\n    REC.append(dict(a=a, b=b, k=k))\n' % name, ns)  # pylint: disable=exec-used
+    c = ns[name]
+    c.__module__ = 'c10'
+    if api == 'external':
+      w = gin.external_configurable(c, name=name, module='c10')
+    else:
+      gin.register(c)
+      w = None
+    SHAPES[name] = dict(fn=w, orig=c, pos=['a', 'b'], kwo=['k'], dfl={'b': R, 'k': 'dk'}, va=False, vk=False, cls=True)
+  # a registered method whose selector is renamed when its class is registered afterwards
+  ns = {'REC': REC, 'R': R, 'gin': gin}
+  exec('class KM:\n  def __init__(self):\n    pass\n'
+       '  def meth(self, a, b=R, *, k="dk"):\n    REC.append(dict(a=a, b=b, k=k))\n', ns)  # pylint: disable=exec-used
+  KM = ns['KM']
+  KM.__module__ = 'c10'
+  KM.meth.__module__ = 'c10'
+  KM.meth.__qualname__ = 'KM.meth'
+  gin.register(KM.meth)
+  gin.register(KM)
+  SHAPES['KM.meth'] = dict(fn=None, orig=KM, method=True, pos=['a', 'b'], kwo=['k'], dfl={'b': R, 'k': 'dk'}, va=False,
+                           vk=False, cls=False)
 
 
 def bound(tier):
@@ -174,7 +199,14 @@ def run_case(sname, m, npos, extra, bound_names, bscope, active, res):
         py_missing.append(n)
   try:
     with gin.config_scope(list(active) if active else None):
-      sh['fn'](*args, **kwargs)
+      target = sh['fn']
+      if sh.get('method'):
+        with gin.config_scope(None):
+          inst = gin.get_configurable(sh['orig'])()
+        target = inst.meth
+      elif target is None:
+        target = gin.get_configurable(sh['orig'])
+      target(*args, **kwargs)
     out, exc = 'ok', None
   except (RuntimeError, ValueError, TypeError) as e:
     out, exc = type(e).__name__, e
@@ -210,7 +242,7 @@ def run_case(sname, m, npos, extra, bound_names, bscope, active, res):
     if listed != order:
       res.violation('missing_required_names', '%r: error lists %r, expected exactly %r in signature order; message: %s'
                     % (desc, listed, order, msg[:300]), desc)
-    elif sname not in msg:
+    elif sname.split('.')[-1] not in msg:
       res.violation('missing_required_no_name', '%r: error does not name the configurable: %s' % (desc, msg[:300]), desc)
     else:
       res.w('missing_reported_in_order')
